@@ -155,6 +155,11 @@ class FnTranslator:
             if e.id in self.env:
                 return self.env[e.id]
             return self.const_of_global(e.id)
+        if isinstance(e, ast.Attribute) and isinstance(e.value, ast.Name) and e.value.id in getattr(self.unit, 'opaque', {}):
+            attrs = self.unit.opaque[e.value.id].get('attrs', {})
+            if e.attr not in attrs:
+                raise Untranslatable(f'attribute {e.attr} of the opaque object {e.value.id}')
+            return f'{e.value.id}_{e.attr}', attrs[e.attr]
         if isinstance(e, ast.Attribute):
             if isinstance(e.value, ast.Name) and e.value.id in self.env:
                 base, t = self.env[e.value.id]
@@ -227,6 +232,14 @@ class FnTranslator:
                         return f'(sliceDropLast {base} {hi.operand.value})', t
                     if lo is None and isinstance(hi, ast.Constant) and isinstance(hi.value, int) and hi.value >= 0:
                         return f'(List.take {hi.value} {base})', t
+                    if lo is not None:
+                        lov, lot = self.expr(lo)
+                        if lot == INT and hi is None:
+                            return f'(sliceFromI {base} {lov})', t
+                        if lot == INT and hi is not None:
+                            hiv, hit = self.expr(hi)
+                            if hit == INT:
+                                return f'(sliceBetween {base} {lov} {hiv})', t
                     raise Untranslatable('slice form')
                 i, it = self.expr(s)
                 if it != INT:
@@ -286,6 +299,16 @@ class FnTranslator:
             raise Untranslatable('guarded subscript form')
         if isinstance(e, ast.BoolOp):
             parts = [self.cond(v) for v in e.values]
+            if any('←' in p for p in parts[1:]):
+                # a later operand has an effect (an index that may raise): it is only evaluated when the earlier ones
+                # have not decided the result
+                acc = parts[-1]
+                for pth in reversed(parts[:-1]):
+                    if isinstance(e.op, ast.And):
+                        acc = f'(← (do if {pth} then return {acc} else return false))'
+                    else:
+                        acc = f'(← (do if {pth} then return true else return {acc}))'
+                return acc, BOOL
             op = ' && ' if isinstance(e.op, ast.And) else ' || '
             return '(' + op.join(parts) + ')', BOOL
         if isinstance(e, ast.Compare) and len(e.ops) == 1 and isinstance(e.left, ast.Attribute) and e.left.attr == 'type' \
@@ -482,6 +505,10 @@ class FnTranslator:
                 xs = [self.expr(a) for a in e.args]
                 if [t for _, t in xs] == [INT, LINT, INT]:
                     return '(← ext.buildMeta %s)' % ' '.join(x for x, _ in xs), EXTMSG
+            if n == 'build_meta_message' and getattr(self.unit, 'ext', False) and len(e.args) == 2 and not e.keywords:
+                xs = [self.expr(a) for a in e.args]
+                if [t for _, t in xs] == [INT, LINT]:
+                    return '(← ext.buildMeta %s (0 : Int))' % ' '.join(x for x, _ in xs), EXTMSG     # delta=0 is the default
             if n == 'MidiTrack' and len(e.args) == 1 and not e.keywords:
                 a, t = self.expr(e.args[0])
                 if t == LIST(MSG):
@@ -500,6 +527,11 @@ class FnTranslator:
                 flat = self.flat_args(u, args, e.args)
                 return f'(← {u.lean_name} {flat})', u.ret
             raise Untranslatable('call of ' + n)
+        if isinstance(f, ast.Attribute) and isinstance(f.value, ast.Name) and f.value.id in getattr(self.unit, 'opaque', {}):
+            meths = self.unit.opaque[f.value.id].get('methods', {})
+            if f.attr not in meths:
+                raise Untranslatable(f'method {f.attr} of the opaque object {f.value.id}')
+            return f'(← {f.value.id}_{f.attr})', meths[f.attr]       # what the call does is a parameter of the unit
         if isinstance(f, ast.Attribute):
             if f.attr == 'get' and len(e.args) == 1 and not e.keywords:
                 base, bt = self.expr(f.value)
@@ -793,6 +825,8 @@ class FnTranslator:
         if isinstance(s, ast.Assign):
             if len(s.targets) != 1:
                 raise Untranslatable('multiple targets')
+            if isinstance(s.targets[0], ast.Name) and s.targets[0].id in getattr(self.unit, 'opaque', {}):
+                return []      # an object of the code outside the fragment: what is read from it are parameters of the unit
             if isinstance(s.value, ast.Call) and isinstance(s.value.func, ast.Name) and s.value.func.id == 'read_byte' \
                     and len(s.value.args) == 1 and isinstance(s.value.args[0], ast.Name) \
                     and is_file(self.env.get(s.value.args[0].id, (None, None))[1]):
@@ -1191,7 +1225,7 @@ class FnTranslator:
         lines = [f'def {aux_name} {fparams} : Nat → {" → ".join(stypes)} → Except Err {resty}']
         pat = ', '.join(state)
         done = f'pure (Sum.inr {tup})' if returns else f'pure {tup}'
-        lines.append(f'  | 0, {pat} => if {c} then throw Err.Hang else {done}')
+        lines.append(f'  | 0, {pat} => {"do " if "←" in c else ""}if {c} then throw Err.Hang else {done}')
         lines.append(f'  | fuel + 1, {pat} => do')
         for n in state:
             lines.append(f'    let mut {n} := {n}')
@@ -1319,6 +1353,11 @@ class FnTranslator:
                 params.append(f'({p} : {lty(t)})')
         for cname, cval in getattr(u, 'consts', {}).items():
             self.env[cname] = (('true' if cval else 'false'), BOOL)
+        for oname, od in getattr(u, 'opaque', {}).items():
+            for a, t in od.get('attrs', {}).items():
+                params.append(f'({oname}_{a} : {lty(t)})')
+            for m, t in od.get('methods', {}).items():
+                params.append(f'({oname}_{m} : Except Err {lty(t)})')
         if getattr(u, 'ext', False):
             params.insert(0, '{M : Type} [Inhabited M] (ext : ReaderExt M)')
         body = []
@@ -1529,7 +1568,7 @@ class Translator:
                 fn = self.find(u.file, u.name, pycls or u.cls)
                 if pycls:
                     fn = ast.parse(ast.unparse(fn)).body[0]
-                    if not fn.args.args or fn.args.args[0].arg != 'self':
+                    if not fn.args.args or fn.args.args[0].arg not in ('self', 'cls'):
                         raise Untranslatable('method without self')
                     if not getattr(u, 'keep_self', False):
                         fn.args.args = fn.args.args[1:]
@@ -1652,6 +1691,15 @@ def units():
     u.local_types = {'track': LIST(EXTMSG), 'last_status': OPT_INT}
     U.append(u)
     U.append(Unit(M, 'check_int', [('value', INT), ('low', INT), ('high', INT)], NONE))
+    u = Unit(M, 'from_bytes', [('msg_bytes', LINT)], EXTMSG, lean_name='MetaMessage.from_bytes', fuel={'loop1': 'msg_bytes.length + 1'})
+    u.pycls, u.ext = 'MetaMessage', True
+    U.append(u)
+    u = Unit(M, 'bytes', [], LINT, lean_name='MetaMessage.bytes')
+    u.pycls, u.opaque = 'MetaMessage', {'spec': {'attrs': {'type_byte': INT}, 'methods': {'encode': LINT}}}
+    U.append(u)
+    u = Unit(M, 'bytes', [('self', Rec({'type_byte': INT, 'data': LINT}))], LINT, lean_name='UnknownMetaMessage.bytes')
+    u.pycls, u.keep_self = 'UnknownMetaMessage', True
+    U.append(u)
 
     TR = 'mido/midifiles/tracks.py'
     U.append(Unit(TR, '_to_abstime', [('messages', LIST(MSG))], LIST(MSG)))
